@@ -525,9 +525,14 @@ def gen_emptied_leaves(nkeys, seed, n, klen=200, pagesize=1024):
     boundaries, with the full read API after each step"""
     r = random.Random(seed)
     lines = []
+    # directed first: the tail and the head of the key space emptied (whole last / first leaves), then random ranges
+    fixed = [(nkeys - t, nkeys) for t in (1, 2, 3, 4, 5, 6, 8, 11)] + [(0, t) for t in (1, 3, 4, 5, 8)]
     for c in range(n):
-        i = r.randrange(0, nkeys)
-        j = min(nkeys, i + r.randrange(1, 10))
+        if c < len(fixed):
+            i, j = fixed[c]
+        else:
+            i = r.randrange(0, nkeys)
+            j = min(nkeys, i + r.randrange(1, 10))
         every_bucket = r.choice([0, 0, 5])
         lines.append("hist el%d-%d-%d-b%d" % (c, i, j, every_bucket))
         lines.append("cfg pagesize=%d numpages=32 strict=0 populate=0" % pagesize)
@@ -806,7 +811,7 @@ def gen_c03(seed, n, k_readers=4, pagesize=1024, numpages=12000):
                 g.emit("drop %d" % t)
             else:
                 g.write_tx(r.randrange(5, 50))
-                if g.lines[-1].startswith("commit"):
+                if any(l.startswith("commit") for l in g.lines[-2:]):   # (`notes` may follow the commit line)
                     g.emit("file")
                     g.emit("flstate")
             for t in readers:
